@@ -27,23 +27,24 @@ theorem comment_attrs_spec (ch : Choices) (x : Comment) (hx : XCommentOK x) :
 theorem comment_run_ev (ch : Choices) (wsE : Nat → List Ev) (hws : WsOnly wsE) (lvl : Nat) (x : Comment) (hx : XCommentOK x)
     (tl : List Ev) (st : RSt) (rest : List Ctx) (c : Cur) (pre : List Sub) (cs0 : List Comment)
     (hs : st.stack = .discussion :: rest) (hc : st.cur = some c) (hsub : c.subs = pre ++ [.discussion cs0])
-    (hct : st.commentText = []) :
+    (hct : st.commentText = []) (hcp : st.commentPending = false) :
     runEvents {} (elEvs ch wsE lvl "comment" [("uid", num x.uid), ("user", x.user), ("date", toIsoAll x.date)]
         [textEvs wsE (lvl + 1) x.text] ++ tl) st =
       runEvents {} tl { st with cur := some { c with subs := pre ++ [.discussion (cs0 ++ [x])] } } := by
   let x0 : Comment := ⟨x.date, x.uid, x.user, []⟩
-  let st1 : RSt := { st with stack := .comment :: .discussion :: rest, cur := some (addComment c x0) }
+  let st1 : RSt := { st with stack := .comment :: .discussion :: rest, cur := some (addComment c x0), commentPending := true }
   let st2 : RSt := { st1 with stack := .text :: .comment :: .discussion :: rest }
   let st3 : RSt := { st2 with commentText := x.text }
   let st4 : RSt := { st3 with stack := .comment :: .discussion :: rest, cur := some (setCommentText (addComment c x0) x.text),
-                              commentText := [] }
+                              commentText := [], commentPending := false }
+  have hulen : x0.user.length ≤ 1024 := (xstrOK_spec hx.2.2.1).choose_spec.2.2
   let st5 : RSt := { st4 with stack := .discussion :: rest }
   have hnt : NoText st := by unfold NoText; rw [hs]; simp
   have hnt1 : NoText st1 := by unfold NoText; simp [st1]
   have hnt4 : NoText st4 := by unfold NoText; simp [st4]
   have h1 : startElement {} st "comment" (OplFmt.OplSpec.pick ch.attrOrder [("uid", num x.uid), ("user", x.user), ("date", toIsoAll x.date)])
-      = .ok st1 := comment_step st rest c hs hc _ x0 (comment_attrs_spec ch x hx)
-  have h2 : startElement {} st1 "text" [] = .ok st2 := text_open_step st1 (.discussion :: rest) rfl []
+      = .ok st1 := comment_step st rest c hs hc _ x0 (comment_attrs_spec ch x hx) hulen
+  have h2 : startElement {} st1 "text" [] = .ok st2 := text_open_step st1 (.discussion :: rest) rfl [] rfl
   have h3 : runEvents {} ((if x.text.isEmpty then [] else [Ev.chars x.text]) ++ Ev.stop "text" :: (wsE lvl ++ Ev.stop "comment" :: tl)) st2 =
       runEvents {} (Ev.stop "text" :: (wsE lvl ++ Ev.stop "comment" :: tl)) st3 := by
     cases ht : x.text with
@@ -57,10 +58,10 @@ theorem comment_run_ev (ch : Choices) (wsE : Nat → List Ev) (hws : WsOnly wsE)
         simp only [st3, st2, st1, ht, hct, List.nil_append]
       rw [this]
   have h4 : endElement {} st3 = .ok st4 := text_close_step st3 (.comment :: .discussion :: rest) (addComment c x0) rfl rfl
-  have h5 : endElement {} st4 = .ok st5 := comment_close_step st4 (.discussion :: rest) rfl
+  have h5 : endElement {} st4 = .ok st5 := comment_close_step st4 (.discussion :: rest) rfl rfl
   have hfin : st5 = { st with cur := some { c with subs := pre ++ [.discussion (cs0 ++ [x])] } } := by
     have := comment_collect c pre cs0 hsub x0 x.text
-    simp only [st5, st4, st3, st2, st1, this, x0, hs, hct]
+    simp only [st5, st4, st3, st2, st1, this, x0, hs, hct, hcp]
   rw [run_open ch wsE hws lvl "comment" _ _ tl st st1 hnt h1]
   simp only [List.flatten_cons, List.flatten_nil, List.append_nil, textEvs, List.isEmpty_cons, Bool.false_eq_true, if_false,
     List.append_assoc, List.cons_append, List.nil_append]
@@ -75,13 +76,13 @@ theorem comment_run_ev (ch : Choices) (wsE : Nat → List Ev) (hws : WsOnly wsE)
 theorem comments_run_ev (ch : Choices) (wsE : Nat → List Ev) (hws : WsOnly wsE) (lvl : Nat) (cs : List Comment)
     (hcs : ∀ x ∈ cs, XCommentOK x) (tl : List Ev) (rest : List Ctx) (pre : List Sub) :
     ∀ (cs0 : List Comment) (st : RSt) (c : Cur), st.stack = .discussion :: rest → st.cur = some c →
-      c.subs = pre ++ [.discussion cs0] → st.commentText = [] →
+      c.subs = pre ++ [.discussion cs0] → st.commentText = [] → st.commentPending = false →
       runEvents {} ((cs.map fun x => elEvs ch wsE lvl "comment" [("uid", num x.uid), ("user", x.user), ("date", toIsoAll x.date)]
           [textEvs wsE (lvl + 1) x.text]).flatten ++ tl) st =
         runEvents {} tl { st with cur := some { c with subs := pre ++ [.discussion (cs0 ++ cs)] } } := by
   induction cs with
   | nil =>
-    intro cs0 st c hs hc hsub hct
+    intro cs0 st c hs hc hsub hct hcp
     have : ({ st with cur := some { c with subs := pre ++ [.discussion (cs0 ++ [])] } } : RSt) = st := by
       rcases st with ⟨stack, header, version, headerOut, cur, out, ct⟩
       rcases c with ⟨obj, subs, lo⟩
@@ -90,12 +91,12 @@ theorem comments_run_ev (ch : Choices) (wsE : Nat → List Ev) (hws : WsOnly wsE
       simp
     rw [this]; rfl
   | cons x cs ih =>
-    intro cs0 st c hs hc hsub hct
+    intro cs0 st c hs hc hsub hct hcp
     simp only [List.map_cons, List.flatten_cons, List.append_assoc]
-    rw [comment_run_ev ch wsE hws lvl x (hcs x (by simp)) _ st rest c pre cs0 hs hc hsub hct]
+    rw [comment_run_ev ch wsE hws lvl x (hcs x (by simp)) _ st rest c pre cs0 hs hc hsub hct hcp]
     have := ih (fun y hy => hcs y (by simp [hy])) (cs0 ++ [x])
       { st with cur := some { c with subs := pre ++ [.discussion (cs0 ++ [x])] } }
-      { c with subs := pre ++ [.discussion (cs0 ++ [x])] } hs rfl rfl hct
+      { c with subs := pre ++ [.discussion (cs0 ++ [x])] } hs rfl rfl hct hcp
     rw [this]
     simp
 
@@ -117,10 +118,12 @@ theorem csAttrs_good (b1 b2 b3 b4 : Bool) (idv cav clv usr uv y1 x1 y2 x2 ncv cc
     (Y1 X1 Y2 X2 : Int)
     (h_id : rUlong idv = .ok idx) (h_ca : rTimestamp cav = .ok cax) (h_cl : rTimestamp clv = .ok clx)
     (h_u : rUlong uv = .ok ux) (h_y1 : rCoord y1 = .ok Y1) (h_x1 : rCoord x1 = .ok X1) (h_y2 : rCoord y2 = .ok Y2)
-    (h_x2 : rCoord x2 = .ok X2) (h_nc : rUlong ncv = .ok ncx) (h_cc : rUlong ccv = .ok ccx) :
+    (h_x2 : rCoord x2 = .ok X2) (h_nc : rUlong ncv = .ok ncx) (h_cc : rUlong ccv = .ok ccx)
+    (h_usr : usr.length ≤ 1024) :
     ∀ a ∈ csAttrs b1 b2 b3 b4 idv cav clv usr uv y1 x1 y2 x2 ncv ccv, csGood a := by
   cases b1 <;> cases b2 <;> cases b3 <;> cases b4 <;>
-    simp (config := { decide := true }) [csAttrs, optA, csGood, h_id, h_ca, h_cl, h_u, h_y1, h_x1, h_y2, h_x2, h_nc, h_cc]
+    simp (config := { decide := true }) [csAttrs, optA, csGood, h_id, h_ca, h_cl, h_u, h_y1, h_x1, h_y2, h_x2, h_nc, h_cc,
+      h_usr]
 
 theorem cs_init_spec (ch : Choices) (id ca cl nc ncm : Nat) (uid : Int) (user : Bytes) (bl tr : Location) (tags : List Tag)
     (cs : List Comment) (h : XCsOK id ca cl nc ncm uid user bl tr tags cs) :
@@ -156,12 +159,12 @@ theorem cs_init_spec (ch : Choices) (id ca cl nc ncm : Nat) (uid : Int) (user : 
   rw [initChangesetAttrs_pick _ _ (csAttrs_nodup ..) (csAttrs_good _ _ _ _ _ _ _ _ _ _ _ _ _ _ _ _ _ _ _ _ _ _ _ _ _
     rid (rTimestamp_toIsoAll ca h.ca) (rTimestamp_toIsoAll cl h.cl) ru
       (rCoord_formatCoord _ by0 by1) (rCoord_formatCoord _ bx0 bx1) (rCoord_formatCoord _ ty0 ty1)
-      (rCoord_formatCoord _ tx0 tx1) rnc rcc)]
+      (rCoord_formatCoord _ tx0 tx1) rnc rcc (xstrOK_spec h.user).choose_spec.2.2)]
   have hch := cs_chain (ca != 0) (cl != 0) (uid != 0) (!isUndefined bl || !isUndefined tr) (num id) (toIsoAll ca) (toIsoAll cl)
       user (num uid) (formatCoord bl.y) (formatCoord bl.x) (formatCoord tr.y) (formatCoord tr.x) (num nc) (num ncm) id ca cl uid.toNat nc ncm
       bl.y bl.x tr.y tr.x rid (rTimestamp_toIsoAll ca h.ca) (rTimestamp_toIsoAll cl h.cl) ru
       (rCoord_formatCoord _ by0 by1) (rCoord_formatCoord _ bx0 bx1) (rCoord_formatCoord _ ty0 ty1)
-      (rCoord_formatCoord _ tx0 tx1) rnc rcc
+      (rCoord_formatCoord _ tx0 tx1) rnc rcc (xstrOK_spec h.user).choose_spec.2.2
   unfold csAttrs
   rw [hch]
   simp only [bindE_ok]
@@ -192,7 +195,7 @@ theorem cs_init_spec (ch : Choices) (id ca cl nc ncm : Nat) (uid : Int) (user : 
 theorem discussion_run_ev (ch : Choices) (wsE : Nat → List Ev) (hws : WsOnly wsE) (lvl : Nat) (cs : List Comment)
     (hcs : ∀ x ∈ cs, XCommentOK x) (tl : List Ev) (st : RSt) (rest : List Ctx) (c : Cur)
     (hs : st.stack = .changeset :: rest) (hc : st.cur = some c) (hl : ∀ cs', c.subs.getLast? ≠ some (.discussion cs'))
-    (hct : st.commentText = []) :
+    (hct : st.commentText = []) (hcp : st.commentPending = false) :
     runEvents {} (elEvs ch wsE lvl "discussion" [] (cs.map fun x =>
         elEvs ch wsE (lvl + 1) "comment" [("uid", num x.uid), ("user", x.user), ("date", toIsoAll x.date)]
           [textEvs wsE (lvl + 2) x.text]) ++ tl) st =
@@ -208,7 +211,7 @@ theorem discussion_run_ev (ch : Choices) (wsE : Nat → List Ev) (hws : WsOnly w
   have h2 := comments_run_ev ch wsE hws (lvl + 1) cs hcs
     ((if (cs.map fun x => elEvs ch wsE (lvl + 1) "comment" [("uid", num x.uid), ("user", x.user), ("date", toIsoAll x.date)]
           [textEvs wsE (lvl + 2) x.text]).isEmpty then [] else wsE lvl) ++ Ev.stop "discussion" :: tl)
-    (.changeset :: rest) c.subs [] st1 c1 rfl rfl rfl hct
+    (.changeset :: rest) c.subs [] st1 c1 rfl rfl rfl hct hcp
   have h3 : endElement {} st2 = .ok { st2 with stack := .changeset :: rest } := discussion_close_step st2 (.changeset :: rest) rfl
   have hfin : ({ st2 with stack := .changeset :: rest } : RSt) =
       { st with cur := some { c with subs := c.subs ++ [.discussion cs], lastOpen := true } } := by
@@ -227,7 +230,7 @@ theorem firstTags_append_disc (pre : List Sub) (cs : List Comment) (hpre : pre =
 theorem changeset_run_ev (ch : Choices) (wsE : Nat → List Ev) (hws : WsOnly wsE) (lvl : Nat) (id ca cl nc ncm : Nat) (uid : Int)
     (user : Bytes) (bl tr : Location) (tags : List Tag) (cs : List Comment) (h : XCsOK id ca cl nc ncm uid user bl tr tags cs)
     (st : RSt) (p : Ctx) (hp : TopParent p) (rest : List Ctx) (hs : st.stack = p :: rest) (hc : st.cur = none)
-    (hct : st.commentText = []) (tl : List Ev) :
+    (hct : st.commentText = []) (hcp : st.commentPending = false) (tl : List Ev) :
     runEvents {} (objectEvs ch wsE lvl (.changeset id ca cl nc ncm uid user bl tr tags cs) ++ tl) st =
       runEvents {} tl { markDone st with out := project (specOpts ch) (.changeset id ca cl nc ncm uid user bl tr tags cs) :: st.out } := by
   have hnt : NoText st := by unfold NoText; rw [hs]; rcases hp with rfl | rfl <;> simp
@@ -265,7 +268,7 @@ theorem changeset_run_ev (ch : Choices) (wsE : Nat → List Ev) (hws : WsOnly ws
           tags_run_ev ch wsE hws (lvl + 1) tags h.tags _ .changeset (Or.inr (Or.inr (Or.inr rfl))) _ st1 _ hs1 hc1, hcol]
         simp only [List.flatten_cons, List.flatten_nil, List.append_nil]
         exact discussion_run_ev ch wsE hws (lvl + 1) cs h.cs tl' _ _ { obj := ob0, subs := pre, lastOpen := lo } hs1 rfl hl
-          (hct1.trans hct), rfl⟩)]
+          (hct1.1.trans hct) (hct1.2.trans hcp), rfl⟩)]
     obtain ⟨f1, f2⟩ := firstTags_append_disc pre cs hpre
     rw [assemble_changeset _ id ca cl nc ncm _ _ bl tr [] [] tags cs rfl (f1.trans hft) f2, hproj]
 
